@@ -199,6 +199,27 @@ fn gen_reservation_layout(r: &mut Rng, net: (u32, u8)) -> CPolicy {
     outer
 }
 
+/// the manual says apply-address / apply-subnet "can be provided multiple times": repeat a key
+fn add_duplicate_key(r: &mut Rng, p: &mut CPolicy) -> bool {
+    if let Some(pos) = p.ad.iter().position(|a| matches!(a, AItem::Addr(_))) {
+        if let AItem::Addr(x) = p.ad[pos] {
+            let y = if r.chance(1, 2) { x.wrapping_add(1) } else { x.wrapping_sub(1) };
+            if r.chance(1, 2) {
+                p.ad.push(AItem::Addr(y));
+            } else {
+                p.ad.insert(0, AItem::Addr(y));
+            }
+            return true;
+        }
+    }
+    for k in p.kids.iter_mut() {
+        if add_duplicate_key(r, k) {
+            return true;
+        }
+    }
+    false
+}
+
 fn strip_clientid(p: &mut CPolicy) {
     p.mo.retain(|(c, _)| *c != 61);
     for k in p.kids.iter_mut() {
@@ -241,7 +262,7 @@ pub fn run(args: &Args, out: &mut dyn Write) -> Stats {
     let thorough = args.tier == "thorough";
     let mut r = Rng::new(args.seed);
     let g = GenCfg { depth: 3, width: 3, addr_items: true, cond8: 6 };
-    let mut huge_budget = if thorough { 12 } else { 3 }; // /8../11: ~1.5 s and 1 GB each in the real code
+    let mut huge_budget = if thorough { 12 } else { 2 }; // /8../11: ~1.5 s and 1 GB each in the real code
     let mut i = 0;
     while i < args.n {
         // every prefix length 20..30 often, 12..19 regularly, 8..11 within budget
@@ -270,6 +291,14 @@ pub fn run(args: &Args, out: &mut dyn Write) -> Stats {
         }
         for p in c.policies.iter_mut() {
             strip_clientid(p);
+        }
+        if r.chance(1, 12) {
+            for p in c.policies.iter_mut() {
+                if add_duplicate_key(&mut r, p) {
+                    stats.bump("gen.duplicate_key");
+                    break;
+                }
+            }
         }
         for a in &c.addresses {
             if let Pfx::P4(_, l) = a {
